@@ -12,6 +12,7 @@ import copy
 import io
 import os
 import random
+import re
 
 from vf import gen_fea
 from vf.runner import Acc, CaseTimeout, HarnessError, TESTS, subseed, time_limit
@@ -55,6 +56,7 @@ REQUIRED_LABELS = [
     "fired:ignore-sub", "fired:ignore-pos", "fired:named-lookup", "fired:lookup-reference-in-context", "fired:lookup-reference-in-feature",
     "fired:langsys:script", "fired:langsys:language", "fired:gsub6:inline-single", "fired:gsub6:inline-ligature", "fired:gsub6:inline-multiple",
     "fired:gpos8:inline-value", "fired:anysubst-merged-groups", "roundtrip:generated", "roundtrip:corpus",
+    "program:class-mixing-glyph-names-before-class-reference",
 ]
 
 
@@ -252,6 +254,9 @@ def gen_langsys(rnd, program, feat):
 # ---------------------------------------------------------------------------
 # one program
 
+_MIXED_CLASS = re.compile(r"\[[^\]@]*[A-Za-z0-9_.][^\]@]*@[A-Za-z0-9_.]+[^\]]*\]")
+
+
 
 def check_program(acc, program, runs_seed, nruns=8, only=None):
     """Compile the program once and run all oracles. `only`: dict(tag, value, script, lang, run) for replay."""
@@ -276,6 +281,8 @@ def check_program(acc, program, runs_seed, nruns=8, only=None):
     if only is None:
         for lab in compiled_shape_labels(font):
             acc.label(lab)
+        if _MIXED_CLASS.search(text):
+            acc.label("program:class-mixing-glyph-names-before-class-reference")
     layout = Layout(program)
     feats = [t for t in program["top"] if t["k"] == "feature"]
     all_tags = [t["tag"] for t in feats]
